@@ -81,40 +81,77 @@ Definition pts_eqb : list (list (option ty)) -> list (list (option ty)) -> bool 
   list_eqb (list_eqb (option_eqb ty_eqb)).
 
 (* ---------------------------------------------------------------- correspondence: implementation = model *)
+(* The oracle of the model (model/Resolve.v, descr_choice: does the implementation keep the description an opaque
+   operation was loaded with, or write its definition's?) is read off the implementation's own result: it kept the
+   description of c when some observed (operation before, operation after) pair has c before and a definition-backed
+   operation carrying c's description after.  Either answer is admissible; when the two descriptions coincide the
+   answers coincide.  A result carrying a third string matches the model under neither answer (corr fails) and is
+   rejected by the specification (rop_b / same_but_descr_b in mon). *)
+Definition chose_keep (pairs : list (op * op)) : descr_choice :=
+  fun c => existsb (fun p => match p with
+                             | (OCustom c', OExt x) => custom_eqb c c' && N.eqb (x_descr x) (c_descr c)
+                             | _ => false
+                             end) pairs.
+Definition node_pairs (nodes : list node_obs) : list (op * op) := map (fun n => (n_op n, n_res n)) nodes.
+Definition whole_pairs (h0 h1 : hugrT) : list (op * op) :=
+  flat_map (fun p => match p with
+                     | (Some n, Some n') => match SerialHugr.n_op n, SerialHugr.n_op n' with
+                                            | HOp a, HOp b => [(a, b)]
+                                            | _, _ => []
+                                            end
+                     | _ => []
+                     end) (combine (h_nodes h0) (h_nodes h1)).
+
+(* A call that raises (None) is never compared with the model: whether serialising, exporting or taking the bound of an
+   expression raises - and which exception - is outside the property (it happens on inputs outside its domain only:
+   too few arguments for a from-params definition, a polymorphic function type used as a type); the monitor decides
+   what a raise means for the property (before / after resolution must agree).  Values are compared when both sides
+   produce one. *)
+Definition agree {A} (eqb : A -> A -> bool) (obs model : option A) : bool :=
+  match obs, model with Some a, Some b => eqb a b | _, _ => true end.
 Definition port_types (o : op) : list ty :=
   match outer_signature o with Some f => ft_in f ++ ft_out f | None => [] end.
 Definition corr_node (reg : registry) (n : node_obs) : bool :=
   let o := n_op n in
-  let r := resolve_op reg o in
-  op_eqb (n_res n) r && op_eqb (n_res2 n) (resolve_op reg r) &&
-  option_eqb op_eqb (n_ser0 n) (ser_op o) && option_eqb op_eqb (n_ser1 n) (ser_op r) &&
-  option_eqb export_eqb (n_exp0 n) (export_op o) && option_eqb export_eqb (n_exp1 n) (export_op r) &&
+  (* the choice made at this node; the second call has nothing to choose for (C11_resolve_idempotent) *)
+  let keep := chose_keep [(n_op n, n_res n)] in
+  let r := resolve_op reg keep o in
+  op_eqb (n_res n) r && op_eqb (n_res2 n) (resolve_op reg keep r) &&
+  agree op_eqb (n_ser0 n) (ser_op o) &&
+  agree export_eqb (n_exp0 n) (export_op o) && agree export_eqb (n_exp1 n) (export_op r) &&
   list_eqb ty_eqb (n_pt0 n) (port_types o) && list_eqb ty_eqb (n_pt1 n) (port_types r) &&
-  list_eqb obound_eqb (n_pb0 n) (row_bounds (port_types o)) &&
-  list_eqb obound_eqb (n_pb1 n) (row_bounds (port_types r)).
+  list_eqb (agree bound_eqb) (n_pb0 n) (row_bounds (port_types o)) &&
+  (* the serial form and the bounds after resolution: only where the property speaks about them (an inconsistent
+     recorded bound is replaced by the computed one, or not: unspecified) *)
+  implb (consistent_op reg o)
+        (agree op_eqb (n_ser1 n) (ser_op r) && list_eqb (agree bound_eqb) (n_pb1 n) (row_bounds (port_types r))).
 
 Definition corr (c : case) : bool :=
   match c with
   | CTy reg t o =>
       let r := resolve_ty reg t in
       ty_eqb (o_res o) r && ty_eqb (o_res2 o) (resolve_ty reg r) &&
-      option_eqb ty_eqb (o_ser0 o) (ser_ty t) && option_eqb ty_eqb (o_ser1 o) (ser_ty r) &&
-      option_eqb term_eqb (o_mod0 o) (to_model t) && option_eqb term_eqb (o_mod1 o) (to_model r) &&
-      obound_eqb (o_b0 o) (tbound t) && obound_eqb (o_b1 o) (tbound r)
+      agree ty_eqb (o_ser0 o) (ser_ty t) &&
+      agree term_eqb (o_mod0 o) (to_model t) && agree term_eqb (o_mod1 o) (to_model r) &&
+      agree bound_eqb (o_b0 o) (tbound t) &&
+      implb (consistent reg t) (agree ty_eqb (o_ser1 o) (ser_ty r) && agree bound_eqb (o_b1 o) (tbound r))
   | CArg reg a o =>
       let r := resolve_arg reg a in
       tyarg_eqb (a_res o) r && tyarg_eqb (a_res2 o) (resolve_arg reg r) &&
-      option_eqb tyarg_eqb (a_ser0 o) (ser_arg a) && option_eqb tyarg_eqb (a_ser1 o) (ser_arg r) &&
-      option_eqb term_eqb (a_mod0 o) (arg_to_model a) && option_eqb term_eqb (a_mod1 o) (arg_to_model r)
+      agree tyarg_eqb (a_ser0 o) (ser_arg a) &&
+      agree term_eqb (a_mod0 o) (arg_to_model a) && agree term_eqb (a_mod1 o) (arg_to_model r) &&
+      implb (consistent_arg reg a) (agree tyarg_eqb (a_ser1 o) (ser_arg r))
   | CHugr reg nodes rest =>
+      let keep := chose_keep (node_pairs nodes) in
       forallb (corr_node reg) nodes &&
-      implb (forallb (fun n => match ser_op (resolve_op reg (n_op n)) with Some _ => true | None => false end) nodes) rest &&
       (* Hugr.resolve_extensions as a whole *)
-      list_eqb op_eqb (map n_res nodes) (resolve_hugr reg (map n_op nodes))
+      list_eqb op_eqb (map n_res nodes) (resolve_hugr reg keep (map n_op nodes))
   | CWhole reg w =>
-      let r := resolve_extensions reg (w_h0 w) in
-      hugr_eqb r (w_h1 w) && hugr_eqb (resolve_extensions reg (w_h1 w)) (w_h2 w) &&
-      option_eqb doc_eqb (hugr_doc (w_h0 w)) (w_doc0 w) && option_eqb doc_eqb (hugr_doc r) (w_doc1 w) &&
+      let keep := chose_keep (whole_pairs (w_h0 w) (w_h1 w)) in
+      let r := resolve_extensions reg keep (w_h0 w) in
+      hugr_eqb r (w_h1 w) && hugr_eqb (resolve_extensions reg keep (w_h1 w)) (w_h2 w) &&
+      agree doc_eqb (hugr_doc (w_h0 w)) (w_doc0 w) &&
+      implb (consistent_hugr reg (w_h0 w)) (agree doc_eqb (hugr_doc r) (w_doc1 w)) &&
       pts_eqb (w_pt0 w) (model_pts (w_h0 w)) && pts_eqb (w_pt1 w) (model_pts r)
   end.
 
@@ -124,11 +161,13 @@ Definition implb (a b : bool) : bool := negb a || b.
 Definition no_ext_ft (f : functype) : bool := forallb no_ext (ft_in f) && forallb no_ext (ft_out f).
 Definition clean_ft (reg : registry) (f : functype) : bool :=
   forallb (clean reg) (ft_in f) && forallb (clean reg) (ft_out f).
-(* an operation loaded from serial form holds no definition-backed type *)
+(* an operation loaded from serial form is opaque and holds no definition-backed type (a definition-backed operation
+   built directly is not resolved at all - ExtOp has no resolve - so the every-depth clause does not speak about it) *)
 Definition loaded_op (o : op) : bool :=
   match o with
   | OCustom c => no_ext_ft (c_sig c) && forallb no_ext_arg (c_args c)
-  | _ => true
+  | OExt _ => false
+  | OOther _ => true
   end.
 (* every depth, for operations: a resolved operation holds no resolvable opaque type *)
 Definition clean_op (reg : registry) (o : op) : bool :=
@@ -165,9 +204,9 @@ Definition mon_node (reg : registry) (n : node_obs) : bool :=
   op_eqb (n_res2 n) (n_res n) &&
   option_eqb export_eqb (n_exp1 n) (n_exp0 n) &&
   (* port types: those of a resolved operation are the resolved port types, all others are identical *)
-  (match n_res n with
-   | OExt _ => list_eqb (rty_b reg) (n_pt0 n) (n_pt1 n)
-   | _ => list_eqb ty_eqb (n_pt0 n) (n_pt1 n)
+  (match n_op n, n_res n with
+   | OCustom _, OExt _ => list_eqb (rty_b reg) (n_pt0 n) (n_pt1 n)
+   | _, _ => list_eqb ty_eqb (n_pt0 n) (n_pt1 n)
    end) &&
   implb (consistent_op reg (n_op n))
         (ser_same reg (n_ser0 n) (n_ser1 n) && list_eqb obound_eqb (n_pb1 n) (n_pb0 n)).
